@@ -144,7 +144,99 @@ def plan(prop: str, tier: str, seed: int, known: core.Known, only: str | None = 
                 "budget_s": 90 if tier == "quick" else 600,
             }
         )
+    tasks += [t for t in bundled_tasks(prop, tier, seed, regions) if not only or only in t["unit"]]
     return tasks
+
+
+def bundled_tasks(prop: str, tier: str, seed: int, regions: dict) -> list[dict]:
+    """The repository's own grammars (tests/grammars, examples) on the inputs of its own tests, with a
+    symbolic window of one or two characters replaced / inserted at seeded offsets.
+
+    The neutral AST the reference and the name / tag oracles need is read off python-pest's own parse of
+    the grammar file (vf/convert.py; the front end itself is C10's subject)."""
+    from . import convert
+    from .props import c08
+
+    cp = famcheck.copy_a()
+    corp = c08.corpus()
+    tasks = []
+    for path in c08.grammar_files():
+        rel = os.path.relpath(path, pestenv_mod.REPO)
+        gtext = open(path, encoding="utf-8").read()
+        try:
+            rules = convert.conv_rules(cp.parser(gtext))
+        except Exception:  # noqa: BLE001  (not convertible / does not load: C11's subject)
+            continue
+        feats = family.features(rules)
+        has_stack = bool(feats & STACK_FEATS)
+        has_triv = "trivia" in feats
+        has_mod = bool(feats & {"mod@", "mod$", "mod!"})
+        if prop == "C03" and (has_stack or has_triv or has_mod):
+            continue
+        if prop == "C04" and (has_stack or not (has_triv or has_mod)):
+            continue
+        if prop == "C05" and not has_stack:
+            continue
+        by_name = {r[0]: r for r in rules}
+        tags = sorted({e[1] for r in rules for e in family.walk(r[2]) if e[0] == "tag"})
+        member = {"id": f"bundled/{rel}", "text": gtext, "rules": rules, "features": feats, "tags": tags}
+        entries = [e for e in corp.get(rel, []) if len(e["text"]) <= 120 and e["rule"] in by_name]
+        rnd = random.Random(f"{seed}/{rel}")
+        if tier == "quick" and len(entries) > 24:
+            entries = rnd.sample(entries, 24)
+        for i, en in enumerate(entries):
+            t, rule = en["text"], en["rule"]
+            if prop == "C16" and "soi" in _reach_features(by_name, rule):
+                continue
+            r2 = random.Random(f"{seed}/{rel}/{i}")
+            cases = []
+            ks0 = [0] if prop != "C16" else []
+            if prop != "C16":
+                cases.append(([t], 0))
+            offs = (sorted({r2.randrange(len(t)) for _ in range(6)}) if tier == "quick" else list(range(len(t)))) if t else []
+            for off in offs:
+                parts = [t[:off], 1, t[off + 1 :]]
+                for k in ks0:
+                    cases.append((parts, k))
+                if prop in ("C01", "C06", "C13", "C16"):
+                    for k in sorted({1, off, min(off + 1, len(t))} - {0}):
+                        if k <= len(t):
+                            cases.append((parts, k))
+            k0 = 0 if prop != "C16" else 1
+            for off in sorted({r2.randrange(len(t)) for _ in range(1 if tier == "quick" else 10)}) if t else []:
+                cases.append(([t[:off], 2, t[off + 2 :]], k0))  # two adjacent characters replaced
+            for off in sorted({r2.randrange(len(t) + 1) for _ in range(2)}) if tier == "quick" else range(len(t) + 1):
+                if k0 <= len(t) + 1:
+                    cases.append(([t[:off], 1, t[off:]], k0))  # one character inserted
+            unit = f"bundled/{rel}/{i}:{rule}"
+            tasks.append(
+                {
+                    "unit": unit,
+                    "prop": prop,
+                    "member": member,
+                    "rules": [(rule, cases)],
+                    "modes": modes_for(prop, tier, seed, member),
+                    "use_ref": prop in ("C03", "C04", "C05"),
+                    "regions": {k[len(unit) + 1 :]: v for k, v in regions.items() if k.startswith(unit + "|")},
+                    "max_paths": 3000 if tier == "quick" else 20000,
+                    "budget_s": 90 if tier == "quick" else 600,
+                }
+            )
+    return tasks
+
+
+def _reach_features(by_name: dict, start: str) -> set:
+    seen, todo, f = set(), [start], set()
+    while todo:
+        nm = todo.pop()
+        if nm in seen or nm not in by_name:
+            continue
+        seen.add(nm)
+        for e in family.walk(by_name[nm][2]):
+            f.add(e[0])
+            if e[0] == "ref":
+                todo.append(e[1])
+    return f
 
 
 def _init():
